@@ -114,6 +114,10 @@ GENERATED_ONLY = {
 }
 GENERATED_ONLY["t_or"] = F(["n", "n"], "agg", props=("C30",))
 GENERATED_ONLY["t_reduce_watermark"] = F(["kv", "n"], "keyed", props=("C30",))
+GENERATED_ONLY["n_o2o"] = F(["n"], "ord", props=("C28",))
+GENERATED_ONLY["n_o2o"]["net"] = "o2o"
+GENERATED_ONLY["n_m2o"] = F(["n"], "keyed", props=("C29",))
+GENERATED_ONLY["n_m2o"]["net"] = "m2o"
 for _n in ("f_join_bl", "f_join_bb", "f_cross_bl"):
     GENERATED_ONLY[_n] = F(["kv" if "join" in _n else "n"], "unord", heavy=True)
 for _n in ("f_join_br", "f_cross_br"):
@@ -471,6 +475,7 @@ MODELLED_NODES = {
     "JoinHalf": "SJoinHalf (top level, Bounded right side) / BJoin / BCross",
     "ChainFirst": "BChainFirst (Optional::or in a tick)",
     "BeginAtomic": "identity in production; Atomic = top level for lifetimes",
+    "Network": "a link: receiver input 0 fed by the re-batched sender output (flows n_o2o, n_m2o)",
     "Difference": "SDifference (Bounded negative side) / BDifference",
     "CrossProduct": "BCrossNL (cross_product_nested_loop)",
     "SingletonSource": "BConst / BFirstTick (in a tick)",
@@ -824,6 +829,7 @@ CLOSURES = {
     "| x | * x != 0": "(fun v => negb (n_of v =? 0))",
     "| x | * x % 2 == 1": "(fun v => n_of v mod 2 =? 1)",
     "| (i , x) | (i as u32 + 1) * x": "(fun p => VN ((kf p + 1) * vf p))",
+    "| (m , v) | (m . get_raw_id () , v)": "(fun p => p)",
     # binary accumulators
     "| acc , x | * acc = (* acc * 2 + x) % 1009": "(vn2 (fun a x => (a * 2 + x) mod 1009))",
     "| acc , v | * acc = (* acc * 2 + v) % 1009": "(vn2 (fun a x => (a * 2 + x) mod 1009))",
@@ -870,6 +876,11 @@ def _is_tick(v):
     return "Tick" in v.get("metadata", {}).get("location_id", {})
 
 
+def _retry(v):
+    i = _ck(v)[1]
+    return i.get("retry", i.get("value_retry"))
+
+
 def _order(v):
     i = _ck(v)[1]
     return i.get("order", i.get("value_order"))
@@ -912,6 +923,7 @@ def _gen_parts(v, iv):
 
 
 _KINDS_S, _KINDS_B = [], []
+_NET = []   # sender-side terms of the Network nodes met while translating a receiver
 _REC_S = {"Source", "Map", "Filter", "FilterMap", "FlatMap", "Inspect", "Enumerate", "Unique", "Chain", "Join",
           "JoinHalf", "AntiJoin", "Difference", "PartitionSide"}
 _REC_B = {"Batch", "Map", "Filter", "FlatMap", "Chain", "Sort", "Enumerate", "Unique", "JoinHalf", "AntiJoin",
@@ -952,7 +964,9 @@ def tr_b(x):
     """tick-level node -> bnode term; records the node's builder metadata for the kind check"""
     t = _tr_b(x)
     k, v = _node(x)
-    if isinstance(v, dict) and _is_tick(v) and (k in _REC_B or _is_order_cast(k, v)):
+    if isinstance(v, dict) and _is_tick(v) and (k in _REC_B or _is_order_cast(k, v)
+                                                or t.startswith("(BWeakenR") and k == "Cast"
+                                                or t.startswith("(BAssume") and k == "ObserveNonDet"):
         e = _kind_entry(t, v)
         if e:
             _KINDS_B.append(e)
@@ -1016,6 +1030,10 @@ def _tr_s(x):
         return "(SUnion %s %s)" % (tr_s(v["first"]), tr_s(v["second"]))
     if k == "Join":
         return "(SJoin %s %s)" % (tr_s(v["left"]), tr_s(v["right"]))
+    if k == "Network":
+        # a link: the receiver reads it as its input 0; the sender program is kept aside
+        _NET.append(tr_s(v["input"]))
+        return "(SSrc 0)"
     if k == "JoinHalf":
         return "(SJoinHalf %s %s)" % (tr_s(v["left"]), tr_s(v["right"]))
     if k == "Difference":
@@ -1070,13 +1088,23 @@ def _tr_b(x):
         if ik != "Source":
             raise Untranslatable("batch of a computed top-level collection inside a tick program")
         return "(BBatch %d)" % _src_index(iv)
-    if k in ("ObserveNonDet", "AssertIsConsistent"):
+    if k == "AssertIsConsistent":
+        return tr_b(v["inner"])
+    if k == "ObserveNonDet":
+        # assume_ordering / assume_retries (trusted or not): identity in production; the model keeps
+        # the assumed kind when it differs from the input's
+        iv = _node(v["inner"])[1]
+        if _ck(v)[0] in ("Stream", "KeyedStream") and (_order(v) != _order(iv) or _retry(v) != _retry(iv)):
+            return "(BAssume %s %s %s)" % (vlib.g_bool(_order(v) == "TotalOrder"),
+                                          vlib.g_bool(_retry(v) == "ExactlyOnce"), tr_b(v["inner"]))
         return tr_b(v["inner"])
     if k == "Cast":
         inner = v["inner"]
         ik, iv = _node(inner)
         if _order(v) == "NoOrder" and _order(iv) == "TotalOrder" and _ck(v)[0] == _ck(iv)[0]:
             return "(BWeaken %s)" % tr_b(inner)
+        if _retry(v) == "AtLeastOnce" and _retry(iv) == "ExactlyOnce" and _ck(v)[0] == _ck(iv)[0]:
+            return "(BWeakenR %s)" % tr_b(inner)
         return tr_b(inner)
     if k == "Map":
         return "(BMap %s %s)" % (_clos(v["f"]), tr_b(v["input"]))
@@ -1135,6 +1163,7 @@ def translate_flow(ir):
     del _EXTRA[:]
     del _KINDS_S[:]
     del _KINDS_B[:]
+    del _NET[:]
     if len(ir) != 1:
         raise Untranslatable("%d roots (cycles / several outputs)" % len(ir))
     rk, rv = _node(ir[0])
@@ -1146,6 +1175,24 @@ def translate_flow(ir):
     while k == "ObserveNonDet" and not v.get("trusted"):
         x = v["inner"]
         k, v = _node(x)
+    # top-level maps applied to the observed snapshots of an aggregate (entries().all_ticks().map(f))
+    maps, px, pk, pv = [], x, k, v
+    while pk == "Map" and not _is_tick(pv):
+        maps.append(pv["f"])
+        px = pv["input"]
+        pk, pv = _node(px)
+    if maps and pk == "YieldConcat":
+        z = pv["inner"]
+        zk, zv = _node(z)
+        while zk == "Cast":
+            z = zv["inner"]
+            zk, zv = _node(z)
+        if (zk == "Batch" and _node(zv["inner"])[0] != "Source" and not _is_tick(_node(zv["inner"])[1])
+                and _ck(_node(zv["inner"])[1])[0] not in ("Stream", "KeyedStream")):
+            t = tr_a(zv["inner"])
+            for f in reversed(maps):
+                t = "(RMap %s %s)" % (_clos(f), t)
+            return "FA", "(rinterp (RA %s))" % t, None
     if k != "YieldConcat":
         return "FS", "(rinterp (RS %s))" % tr_s(x), _order(v) == "TotalOrder"
     y = v["inner"]
@@ -1179,7 +1226,7 @@ def translated_defs(ctx, binary, flows):
             kind, term, expected = translate_flow(r["ir"])
             defs.append("Definition %s := %s." % (gen_name(f), term))
             report[f] = {"kind": kind, "expected_total_order": expected, "term": term, "shared_extra": list(_EXTRA),
-                         "kinds_s": list(_KINDS_S), "kinds_b": list(_KINDS_B)}
+                         "kinds_s": list(_KINDS_S), "kinds_b": list(_KINDS_B), "sender": (list(_NET) or [None])[0]}
         except Untranslatable as e:
             report[f] = {"kind": None, "why": str(e)}
     return "\n".join(defs), report
@@ -1281,3 +1328,74 @@ def _emit_term_named(flow, name, res, fn="chk_emit", extras=()):
     if extras:
         return t.replace("(%s %s " % (fn, flow), "(chk_emit_dag %s [%s] " % (name, "; ".join(extras)), 1)
     return t.replace("(%s %s " % (fn, flow), "(%s %s " % (fn, name), 1)
+
+
+# ---------------------------------------------------------------------------- network links
+
+
+def net_flows(prop):
+    return [f for f, sp in FLOWS.items() if sp.get("net") and prop in sp["props"]]
+
+
+def gen_net_cases(rng, tier, prop):
+    """o2o: sender inputs cut into ticks x arbitrary FIFO re-batching for the receiver (with empty
+    receiver ticks, always ending with a tick that delivers the rest); m2o: 2-3 members x random
+    per-sender-FIFO interleavings"""
+    cases = []
+    reps = 12 if tier == "thorough" else 5
+    for flow in net_flows(prop):
+        cases.append({"k": "ir", "flow": flow, "src": "emit"})
+        for _ in range(reps):
+            if FLOWS[flow]["net"] == "o2o":
+                items = gen_input(rng, "n", rng.range(2, 10))
+                base = random_partition(rng, flow, [items], src="net")
+                for _ in range(4):
+                    ks, left = [], len(items)
+                    for _ in range(rng.range(1, 5)):
+                        k = rng.range(0, 3)
+                        ks.append(k)
+                    ks.append(len(items))
+                    cases.append({"flow": flow, "ticks": base["ticks"], "deliver": ks, "src": "net"})
+            else:
+                members = [gen_input(rng, "n", rng.range(0, 5)) for _ in range(rng.range(2, 3))]
+                for _ in range(4):
+                    pool = []
+                    for i, m in enumerate(members):
+                        pool += [i] * len(m)
+                    pool = rng.shuffle(pool)
+                    sched, i = [], 0
+                    while i < len(pool):
+                        k = rng.range(0, 3)
+                        sched.append(pool[i:i + k])
+                        i += k
+                    sched.append([])
+                    cases.append({"flow": flow, "members": members, "deliver": sched, "src": "net"})
+    return cases
+
+
+def net_term(tr, case, res):
+    flow = case["flow"]
+    r = tr.report.get(flow, {})
+    if r.get("kind") is None or not r.get("sender"):
+        return 1
+    if case.get("k") == "ir":
+        ts = [t for t in (tr.kinds_term(flow), tr.wf_term(flow)) if t]
+        out = "0"
+        for t in ts:
+            out = "(N.lor %s %s)" % (out, t)
+        return out
+    if not isinstance(res, dict) or "ticks" not in res:
+        return 3
+    impl = g_impl(res)
+    inner = r["term"][len("(rinterp "):-1]            # (RS n) / (RA a)
+    if FLOWS[flow]["net"] == "o2o":
+        recv = inner[len("(RS "):-1]
+        ticks = "[" + "; ".join("[" + g_vals(t.get("a", [])) + "]" for t in case["ticks"]) + "]"
+        sent = "[" + "; ".join(g_vals(t) for t in res["sent_ticks"]) + "]"
+        ks = "[" + "; ".join("%d%%nat" % k for k in case["deliver"]) + "]"
+        return "(chk_net_o2o %s %s %s %s %s %s)" % (r["sender"], recv, ticks, ks, sent, impl)
+    recv = "(interp_a %s)" % inner[len("(RA "):-1]
+    members = "[" + "; ".join(g_vals(m) for m in case["members"]) + "]"
+    sent = "[" + "; ".join(g_vals(t) for t in res["sent_members"]) + "]"
+    sched = "[" + "; ".join("[" + "; ".join("%d%%nat" % m for m in t) + "]" for t in case["deliver"]) + "]"
+    return "(chk_net_m2o %s %s %s %s %s %s)" % (r["sender"], recv, members, sched, sent, impl)
